@@ -17,6 +17,8 @@ def normalise(cfg):
     c.setdefault("api", False)
     est = {(a["o"], a["k"]): a["est"] for a in c["plan"]}
     for ob in c["obs"]:
+        if not c.get("fracStart"):
+            ob["estT"] = ob["est"] * c["K"]
         for n in ob["wf"]["nodes"]:
             if n.get("data") is None:
                 n["data"] = 0
@@ -75,6 +77,16 @@ def static_plan(cfg, rng):
             eft[k], where[k] = est + rt, m
             free[m] = eft[k]
             plan.append({"o": ob["o"], "k": k, "m": m, "est": est, "eft": est + rt})
+    if rng.random() < 0.35:
+        # a conservative plan in absolute times: slack in every task window and
+        # windows far in the future (a task is then flagged as delayed only by
+        # the comparison of its real and its lengthened runtime)
+        slack = rng.randint(1, 2)
+        t = 60
+        for a in sorted(plan, key=lambda a: (a["o"], a["est"], a["k"])):
+            d = a["eft"] - a["est"] + slack
+            a["est"], a["eft"] = t, t + d
+            t += d
     return plan
 
 
@@ -126,6 +138,26 @@ def join_wf(rng):
 
 
 def random_cfg(rng, alg=None, family="roomy", nobs=None, maxn=4):
+    if family == "units":
+        # the same kind of configuration written with a coarser timestep unit
+        # (4 seconds per step) and planned starts that fall between two steps
+        c = random_cfg(rng, alg=alg, family="roomy", nobs=nobs, maxn=maxn)
+        c["unit"] = 4
+        c["fracStart"] = True
+        c["K"] = lcm(4, c["K"])
+        for o in c["obs"]:
+            o["estT"] = o["est"] * c["K"] + rng.choice([0, 1, 2, 3]) * (c["K"] // 4)
+        return normalise(c)
+    if family == "bigcap":
+        # realistic magnitudes: capacities around 10^9 with tiny data volumes
+        c = random_cfg(rng, alg=alg, family="roomy", nobs=nobs or rng.choice([1, 2]), maxn=3)
+        c["hotCap"] = 2_000_000_000 - rng.randint(0, 5)
+        c["coldCap"] = 1_000_000_000 + rng.randint(0, 5)
+        for o in c["obs"]:
+            o["rate"] = 1
+        c["hotRate"] = 1_000_000
+        c["coldRate"] = rng.choice([1, 2, 500_000])
+        return normalise(c)
     if family == "overrate":
         # one observation produces data faster than the hot buffer may ingest:
         # the ingest must be rejected with an error before anything is deposited
@@ -213,6 +245,10 @@ def random_cfg(rng, alg=None, family="roomy", nobs=None, maxn=4):
         obs.append({"o": "abc"[i], "est": rng.randint(0, 5), "dur": dur,
                     "demand": rng.randint(1, arrays), "ing": rng.randint(1, max_ingest),
                     "rate": rate, "wf": random_wf(rng, maxn)})
+    if family == "roomy" and rng.random() < 0.12:
+        # an observation that produces no data at all (a data product rate
+        # below half a unit is rounded to 0 by the configuration parser)
+        obs[rng.randrange(len(obs))]["rate"] = 0
     if len(obs) > 1 and rng.random() < 0.3:
         # two pipelines using one and the same workflow
         import copy as _copy
@@ -246,7 +282,7 @@ def random_cfg(rng, alg=None, family="roomy", nobs=None, maxn=4):
         cold = max(vols) + rng.randint(0, sum(vols))
     cfg = {"K": K, "machines": machines, "arrays": arrays, "maxIngest": max_ingest,
            "hotCap": hot, "coldCap": cold,
-           "hotRate": max(o["rate"] for o in obs) + rng.randint(0, 2),
+           "hotRate": max(1, max(o["rate"] for o in obs) + rng.randint(0, 2)),
            "coldRate": rng.randint(1, 3), "obs": obs}
     alg = alg or rng.choice(["batch", "batch", "queue", "plan", "greedy"])
     cfg["alg"] = alg
